@@ -606,7 +606,7 @@ class AssociationSocket:
 
         return bytestream
 
-    def send(self, bytestream: bytes) -> None:
+    def send(self, bytestream: bytes) -> bool:
         """Try and send the data in `bytestream` to the remote.
 
         *Events Emitted*
@@ -618,6 +618,11 @@ class AssociationSocket:
         ----------
         bytestream : bytes
             The data to send to the remote.
+
+        Returns
+        -------
+        bool
+            ``True`` if the data was sent, ``False`` if sending failed.
         """
         self.socket = cast(socket.socket, self.socket)
         total_sent = 0
@@ -632,6 +637,9 @@ class AssociationSocket:
         except Exception:
             # Evt17: Transport connection closed
             self.event_queue.put("Evt17")
+            return False
+
+        return True
 
     def _shutdown_socket(self) -> None:
         """Try to shutdown and close the socket."""
